@@ -1,5 +1,7 @@
 import Yaql.Model.OpTable
 import Yaql.Gen.OpTables
+import Yaql.Props.C02Order
+import Yaql.Props.C02Levels
 /-!
 C02, generated-table layer: what the LIVE yaql objects contain equals what the model computes.
 
@@ -38,5 +40,21 @@ theorem value_call_rule :
     legacyHasValueCall = legacyAllowDelegates ∧ legacyDelegatesHasValueCall = legacyDelegatesAllowDelegates ∧
     defaultAllowDelegates = false ∧ defaultDelegatesAllowDelegates = true ∧
     legacyAllowDelegates = false ∧ legacyDelegatesAllowDelegates = true := by decide
+
+
+/-! The side conditions of the table-layer theorems (`C02Levels.levels_contiguous`,
+`C02Order.ply_order_iso`, `C02Iso.reduce_by_group`) hold for the live tables. -/
+
+open Yaql.Props.C02Levels Yaql.Props.C02Order in
+theorem live_tables_populated :
+    Populated defaultOps ∧ Populated defaultDelegatesOps ∧ Populated legacyOps ∧ Populated legacyDelegatesOps := by
+  decide +kernel
+
+open Yaql.Props.C02Order in
+theorem live_names_disjoint :
+    NamesDisjoint (funcsOf defaultTable).pdict ∧ NamesDisjoint (funcsOf defaultDelegatesTable).pdict ∧
+    NamesDisjoint (funcsOf legacyTable).pdict ∧ NamesDisjoint (funcsOf legacyDelegatesTable).pdict :=
+  ⟨namesDisjoint_of_check _ (by decide +kernel), namesDisjoint_of_check _ (by decide +kernel),
+   namesDisjoint_of_check _ (by decide +kernel), namesDisjoint_of_check _ (by decide +kernel)⟩
 
 end Yaql.Props.C02Gen
